@@ -1,12 +1,154 @@
-// Package c05: correspondence harness of C05 (stub: replaced when C05 is built).
+// Package c05: derived DeepCopy / Clone vs the model of plugin/deepcopy + plugin/clone
+// (coq/theories/Copy/Model.v): equal, fully independent copy for every prior destination.
 package c05
 
 import (
+	_ "embed"
 	"fmt"
+	"strings"
 
+	"verifharness/internal/ga"
 	"verifharness/internal/hx"
 )
 
+//go:embed drv_c05.go.txt
+var driverSource string
+
+// refKind: "sl", "m" when the type (through a name) is a slice or map, else "".  (The direct form for a
+// pointer type *T is the pointer form of T; asking for both in one package is a name conflict.)
+func refKind(t *ga.Type) string {
+	u := t
+	if t.K == ga.KNamed {
+		u = t.Elem
+	}
+	switch u.K {
+	case ga.KSlice:
+		return "sl"
+	case ga.KMap:
+		return "m"
+	}
+	return ""
+}
+
+// zeroSize: types without data (struct{}, [0]T, arrays and structs of those): for these the emitted
+// statements may never touch a nil argument; the nil cases are not part of the model.
+func zeroSize(t *ga.Type) bool {
+	switch t.K {
+	case ga.KNamed:
+		return zeroSize(t.Elem)
+	case ga.KArray:
+		return t.N == 0 || zeroSize(t.Elem)
+	case ga.KStruct:
+		for _, f := range t.Fields {
+			if !zeroSize(f.T) {
+				return false
+			}
+		}
+		return true
+	}
+	return false
+}
+
+func isRefGo(tgo string) bool {
+	return strings.HasPrefix(tgo, "[]") || strings.HasPrefix(tgo, "map[") || tgo == "NSl" || tgo == "NMap"
+}
+
+var (
+	// deriveDeepCopy(dst, src *T)
+	callDCP = ga.Call{Op: "dcp",
+		Wrap: func(idx int, tgo string) string {
+			return fmt.Sprintf("func dcp_%d(dst, src *%s) { deriveDeepCopyP_%d(dst, src) }\n", idx, tgo, idx)
+		},
+		WrapFn: func(idx int) string { return fmt.Sprintf("dcp_%d", idx) }}
+	// deriveDeepCopy(dst, src T) for T itself a slice or map
+	callDCD = ga.Call{Op: "dcd",
+		Wrap: func(idx int, tgo string) string {
+			if !isRefGo(tgo) {
+				return fmt.Sprintf("func dcd_%d() {}\n", idx)
+			}
+			return fmt.Sprintf("func dcd_%d(dst, src %s) { deriveDeepCopyD_%d(dst, src) }\n", idx, tgo, idx)
+		},
+		WrapFn: func(idx int) string { return fmt.Sprintf("dcd_%d", idx) }}
+	callClone = ga.Simple("clone", "deriveClone", "src %T", "%T", "src")
+)
+
+func wrapP(label int, v *ga.Val) *ga.Val { return &ga.Val{K: "p", Loc: label, Elems: []*ga.Val{v}} }
+
+func length(v *ga.Val) int {
+	switch v.K {
+	case "sl":
+		return len(v.Elems)
+	case "m":
+		return len(v.KVs)
+	}
+	return 0
+}
+
 func Run(cfg hx.Config) (*hx.Meta, error) {
-	return nil, fmt.Errorf("C05: harness not built yet")
+	perSrc := 5
+	if cfg.Tier == "thorough" {
+		perSrc = 1 << 30
+	}
+	vr := &ga.ValueRun{
+		Prop: "C05", Calls: []ga.Call{callDCP, callDCD, callClone}, SupObs: "sup-dc", PoolQuick: 10, PoolThorough: 16,
+		Extra: map[string]string{"drv_c05.go": driverSource},
+		Cases: func(idx int, t *ga.Type, vals []*ga.Val, r *hx.Rand, out *strings.Builder) {
+			// labels of the relabelled destinations: disjoint from the pools' labels, below the
+			// driver's base for addresses allocated by the call (1e9); one range per type
+			lab := 100000000 + idx*100000
+			fresh := func() int { lab++; return lab }
+			rk := refKind(t)
+			// prior destinations of one source: the zero value, the source's own shape at other
+			// addresses, and other pool values (nil-ness mutations, longer/shorter slices with
+			// spare capacity, populated maps are all pool members)
+			dsts := func(si int) []*ga.Val {
+				var ds []*ga.Val
+				ds = append(ds, vals[0], vals[si])
+				var others []int
+				for j := range vals {
+					if j != 0 && j != si {
+						others = append(others, j)
+					}
+				}
+				hx.Shuffle(r, others)
+				for k, j := range others {
+					if k >= perSrc {
+						break
+					}
+					ds = append(ds, vals[j])
+				}
+				return ds
+			}
+			for si, s := range vals {
+				fmt.Fprintf(out, "clone %d %s\n", idx, s.Sexp())
+				for _, d := range dsts(si) {
+					// pointer form: arbitrary prior contents of *dst
+					fmt.Fprintf(out, "dcp %d %s %s\n", idx, wrapP(fresh(), s).Sexp(), wrapP(fresh(), d.Clone(fresh)).Sexp())
+				}
+				if si < 2 && !zeroSize(t) {
+					// nil source / nil destination: every emitted statement dereferences them
+					fmt.Fprintf(out, "dcp %d nilp %s\n", idx, wrapP(fresh(), s.Clone(fresh)).Sexp())
+					fmt.Fprintf(out, "dcp %d %s nilp\n", idx, wrapP(fresh(), s).Sexp())
+				}
+				if rk == "" {
+					continue
+				}
+				for _, d := range vals {
+					// direct form: the property's destinations are a slice of equal length / an empty
+					// map / a non-nil pointer; a band of others runs for the correspondence only
+					inProp := false
+					switch rk {
+					case "sl":
+						inProp = (s.K == "nils") == (d.K == "nils") && length(s) == length(d)
+					case "m":
+						inProp = (s.K == "nilm") == (d.K == "nilm") && length(d) == 0
+					}
+					if inProp || r.Intn(4) == 0 {
+						fmt.Fprintf(out, "dcd %d %s %s\n", idx, s.Sexp(), d.Clone(fresh).Sexp())
+					}
+				}
+			}
+		},
+	}
+	return vr.Run(cfg)
 }
